@@ -199,11 +199,11 @@ PROPS["C12"] = {
     "level": "proof",
     "technique": "Verus contracts on the real merkle_set.rs (get_bit, encode_type, hash, radix_sort with its partition loop and recursive sub-slice calls, compute_merkle_set_root) against a trie specification defined over the *set* of leaves; Verus contracts on the real merkle_tree.rs lookup (generate_proof_impl, other_included, get_root, generate_proof, validate_merkle_proof) against what a tree proves about an item",
     "level_text": "Deductive proof for every slice of 32-byte leaves (any length < 2^31, any order, with duplicates, shared prefixes down to bit 255): compute_merkle_set_root equals root_spec(set of leaves), where root_spec is the collapsed binary-trie hash written from the statement; because the spec is a function of the set, order and duplicates cannot matter. Includes index safety, i32 arithmetic, termination (256 - depth) and unreachability of the panic!.",
-    "level_note": "sha256 uninterpreted (Sha256 ghost model). Unit merkle_tree: for every well-formed node vector, generate_proof_impl answers included only at a leaf equal to the item, excluded only at an empty node / a different leaf / a double-leaf node without the item reached along the item's bits, and errs exactly when the walk ends in a truncated sub-tree; get_root is the root entry's hash (leaf hashed, empty = 32 zero bytes); validate_merkle_proof gives that verdict only when the deserialized tree's root equals the claimed root, otherwise errs. ASSUMED: the proof deserializer (stack machine) yields a well-formed tree of depth <= 255 or fails; pad_middles_for_proof_gen terminates. That the deserialized tree's hashes are the hashes of a tree consistent with the root (soundness proper, needs collision-freeness) and from_leafs == compute_merkle_set_root are not covered.",
-    "components": [V("merkle_set"), V("merkle_tree")],
+    "level_note": "sha256 uninterpreted (Sha256 ghost model). Unit merkle_tree: for every well-formed node vector, generate_proof_impl answers included only at a leaf equal to the item, excluded only at an empty node / a different leaf / a double-leaf node without the item reached along the item's bits, and errs exactly when the walk ends in a truncated sub-tree; get_root is the root entry's hash (leaf hashed, empty = 32 zero bytes); validate_merkle_proof gives that verdict only when the deserialized tree's root equals the claimed root, otherwise errs. ASSUMED: the proof deserializer (stack machine) yields a well-formed tree of depth <= 255 or fails; pad_middles_for_proof_gen terminates. Soundness proper (that no proof for a given root validates with the opposite verdict) needs collision-freeness and the proof deserializer: it is decided on ground instances only - 107 735 obligations over 21 leaf sets (splits at bits 0..255, duplicates, dense low bits): from_leafs root == compute_merkle_set_root, every member / probed non-member has a generated proof that validates with the true verdict, and no corrupted proof (every single-bit flip of every byte, appended / dropped bytes, proofs issued for other items, empty siblings moved to the other side - the last two keep the root hash) validates with the opposite verdict.",
+    "components": [V("merkle_set"), V("merkle_tree"), N("native_merkle_ground", "merkle_ground")],
     "assumptions": ["Sha256 ghost model, sha256 uninterpreted", "<[T]>::swap, u8::from(bool) std contracts", "Verus's model of `&mut range[..k]` sub-slice borrows"],
     "not_covered": [
-        "merkle_tree.rs: MerkleSet::from_leafs/get_root agreement with compute_merkle_set_root",
+        "merkle_tree.rs: MerkleSet::from_leafs/get_root agreement with compute_merkle_set_root for all sets (ground instances only)",
         "deserialize_proof_impl (stack machine; leaf-position audit, depth limit, trailing bytes) and the hash-consistency half of validate_merkle_proof soundness; generate_proof completeness (the bytes it emits re-validate)",
         "Python bindings (wheel/src/api.rs)",
     ],
